@@ -159,3 +159,29 @@ def random_doc(r):
         root["attrs"].append({"ns": None, "name": "package", "value": "com.example" + (r.choice(ODD) if bad and r.random() < 0.3 else "")})
     return {"namespaces": nss, "root": root, "utf8": r.random() < 0.4,
             "resource_ids": [0x0101021B, 0x0101021C, 0x01010003][:r.randint(0, 3)]}
+
+
+def manifest_doc(r):
+    """an AndroidManifest-like document: package, version attributes and a uses-sdk element whose numbers are boundary values"""
+    big = [0, 1, 19, 33, 34, 1000, 0x7FFF, 0x10000, 0x7FFFFFFF, 0xFFFFFFFF, 0x80000000, r.randrange(1 << 32)]
+    def num():
+        return ["int", r.choice(big)] if r.random() < 0.7 else str(r.choice(big))
+    root = {"name": "manifest", "ns": None, "attrs": [
+        {"ns": None, "name": "package", "value": r.choice(["com.example.app", "a", "", "com..x", "c" * 300])},
+        {"ns": ANDROID, "name": "versionCode", "value": num()},
+        {"ns": ANDROID, "name": "versionName", "value": r.choice(["1.0", "", "v" * 100])}], "children": []}
+    sdk = {"name": "uses-sdk", "ns": None, "attrs": [], "children": []}
+    for n in ("minSdkVersion", "targetSdkVersion", "maxSdkVersion"):
+        if r.random() < 0.75:
+            sdk["attrs"].append({"ns": ANDROID, "name": n, "value": num()})
+    root["children"].append(sdk)
+    for _ in range(r.randint(0, 3)):
+        root["children"].append({"name": "uses-permission", "ns": None, "children": [],
+                                 "attrs": [{"ns": ANDROID, "name": "name", "value": r.choice(["android.permission.INTERNET", "x", "", "a" * 200])},
+                                           {"ns": ANDROID, "name": "maxSdkVersion", "value": num()}]})
+    app = {"name": "application", "ns": None, "attrs": [{"ns": ANDROID, "name": "label", "value": r.choice(["app", ["ref", 0x7F010000]])}],
+           "children": [{"name": "activity", "ns": None, "attrs": [{"ns": ANDROID, "name": "name", "value": ".Main"}], "children": []}]}
+    root["children"].append(app)
+    # attribute names are given resource ids in this order (as aapt does), so that they are recognised by id as well
+    return {"namespaces": [["android", ANDROID]], "root": root, "utf8": r.random() < 0.5,
+            "resource_ids": []}
